@@ -52,8 +52,13 @@ SiteFile(s) ==
     CASE s = 1 -> <<109,46,99>>                                                                  \* "m.c"
       [] s = 2 -> <<97,98,99,100,101,102,103,104,105,106,107,108,109,110,111,112,113,114,46,99>>  \* exactly 20 characters
       [] s = 3 -> <<97,98,99,100,101,102,103,104,105,106,107,108,109,110,111,112,113,114,115,46,99>>  \* 21 characters
+      \* near-miss sites: they differ from site 1 ("m.c", line 7) in ONE component only - a record must carry the site of the LAST
+      \* (re)allocation even when the new site has the same line and a name that extends / is a prefix of the stored one
+      [] s = 5 -> <<109,46,99,46,105,110>>                                                        \* "m.c.in" (line 7)
+      [] s = 6 -> <<109,46,99>>                                                                  \* "m.c"    (line 8)
+      [] s = 7 -> <<109>>                                                                        \* "m"      (line 7)
       [] OTHER -> <<118,101,114,105,102,95,108,111,110,103,95,115,111,117,114,99,101,95,102,105,108,101,95,110,97,109,101,46,99>> \* 29
-SiteLine(s) == CASE s = 1 -> 7 [] s = 2 -> 4096 [] s = 3 -> 12 [] OTHER -> 70000
+SiteLine(s) == CASE s = 1 -> 7 [] s = 2 -> 4096 [] s = 3 -> 12 [] s = 5 -> 7 [] s = 6 -> 8 [] s = 7 -> 7 [] OTHER -> 70000
 Trunc(f) == SubSeq(f, 1, IF Len(f) < FnameLen THEN Len(f) ELSE FnameLen)       \* S
 
 \* (below the memory level nothing records file and line, so the reference keeps only the size there: fewer states, same claims)
